@@ -247,7 +247,11 @@ reg(NNOp("fold", {
 def _bn_ops(a):
     C = a["xshape"][1]
     ops = [X(a["xshape"], a.get("vclass", "bn_x"))]
-    if a["affine"]:
+    if a["affine"] == "weight-only":
+        ops += [X([C], "pm_wellcond", name="gamma")]
+    elif a["affine"] == "bias-only":
+        ops += [X([C], "normal", name="beta")]
+    elif a["affine"]:
         ops += [X([C], "pm_wellcond", name="gamma"), X([C], "normal", name="beta")]
     if a["track"]:
         ops += [X([C], "normal", diff=False, name="running_mean"), X([C], "runvar", diff=False, name="running_var")]
@@ -257,7 +261,13 @@ def _bn_ops(a):
 def _bn_split(xs, a):
     i = 1
     g = b = rm = rv = None
-    if a["affine"]:
+    if a["affine"] == "weight-only":          # the two optional affine operands of the functional form are independent
+        g = xs[1]
+        i = 2
+    elif a["affine"] == "bias-only":
+        b = xs[1]
+        i = 2
+    elif a["affine"]:
         g, b = xs[1], xs[2]
         i = 3
     if a["track"]:
@@ -369,6 +379,9 @@ def operand_values(rng, spec, a):
         return rng.standard_normal(shape) * 0.5 + 300.0          # |mean|/std = 600: a one-pass variance cancels catastrophically in float32
     if vc == "huge":
         return rng.uniform(-800.0, 800.0, shape)
+    if vc == "tails":
+        # where a squashing function is tiny but far from underflow: relative accuracy matters there
+        return rng.uniform(16.0, 80.0, shape) * rng.choice([-1.0, -1.0, -1.0, 1.0], shape)
     if vc == "negbig":
         return -1e3 - np.abs(rng.standard_normal(shape)) * 1e2
     if vc == "poscode":
@@ -495,6 +508,15 @@ def grid(name, tier, rng):
                     for track in (True, False):
                         for mom in ((0.1, 0.5) if th else (0.1,)):
                             out.append({"xshape": xs, "training": training, "affine": affine, "track": track, "momentum": mom, "eps": 1e-5})
+                        if affine:
+                            # a non-default eps (forward and backward use the caller's value); functional form with only one of weight / bias
+                            out.append({"xshape": xs, "training": training, "affine": affine, "track": track, "momentum": 0.1, "eps": 0.3 if training else 1e-2})
+                            out.append({"xshape": xs, "training": training, "affine": "weight-only" if training else "bias-only", "track": track, "momentum": 0.1,
+                                        "eps": 1e-5, "functional_only": True})
+                        if track and not training and xs == [4, 3]:
+                            # one value per channel is enough in inference mode (running statistics are used)
+                            for x1 in ([1, 3], [1, 2, 1], [1, 2, 1, 1]):
+                                out.append({"xshape": x1, "training": False, "affine": affine, "track": True, "momentum": 0.1, "eps": 1e-5})
                         if track:
                             out.append({"xshape": xs, "training": training, "affine": affine, "track": track, "momentum": 0.1, "eps": 1e-5,
                                         "second_forward": True})
